@@ -180,7 +180,7 @@ pub fn c10(ctx: &mut Ctx, tier: &str, r: &mut Rng, js: &[Value], reqs: &[String]
         ctx.finish(json!({}));
         return;
     }
-    let n = if tier == "thorough" { 6000 } else { 260 };
+    let n = sz!(tier, 260, 6000);
     for i in 0..n {
         for pol in [1usize, 2, 3, 4, 7, 8, 9, 10, 13, 14] {
             let mut p = Params::new(r.pick(&NAMED8));
@@ -388,7 +388,7 @@ pub fn c12(ctx: &mut Ctx, tier: &str, r: &mut Rng, js: &[Value], reqs: &[String]
         ctx.finish(json!({}));
         return;
     }
-    let n = if tier == "thorough" { 40000 } else { 1500 };
+    let n = sz!(tier, 1500, 40000);
     for i in 0..n {
         let mut p = Params::new(r.pick(&METHODS).0);
         p.round_seconds = RoundSeconds::None;
@@ -516,7 +516,7 @@ pub fn c16(ctx: &mut Ctx, tier: &str, r: &mut Rng, js: &[Value], reqs: &[String]
         ctx.finish(json!({}));
         return;
     }
-    let n = if tier == "thorough" { 400000 } else { 20000 };
+    let n = sz!(tier, 20000, 400000);
     for lon in [-180., 180., 39.8233, 39.823333, -140.1767, -140.176667, 0., 90., -90., 179.999999, -179.999999] {
         for lat in [-89.9, -60., -21.4233, 0., 21.4233, 21.5, 45., 89.9] {
             c16_one(ctx, lat, lon, 0.);
